@@ -16,6 +16,9 @@ import (
 	"github.com/consensys/gnark/verifharness/internal/vcore"
 )
 
+// maxPairs is the size of the point arrays of the pairing circuits.
+const maxPairs = 6
+
 type pairCfg struct {
 	kind string
 	n    int
@@ -81,6 +84,40 @@ func genPair(d pairDesc, rng *rand.Rand, quick bool) []*pairCase {
 		mk("check", "n=2,P1=-P0,Q1=Q0,product=1", 2, []*big.Int{a, neg(a)}, []*big.Int{b, b}, -1, -1, "", -1, true)
 		mk("check", "n=2,P1=P0,Q1=-Q0,product=1", 2, []*big.Int{a, a}, []*big.Int{b, neg(b)}, -1, -1, "", -1, true)
 	}
+	// multi-pairings with more pairs than the hand-unrolled first iterations cover
+	native := d.tag == "bls12377" || d.tag == "bls24315"
+	for _, n := range []int{4, 5, 6} {
+		if n == 6 && quick {
+			continue
+		}
+		if !native && d.tag == "bw6761" && n == 6 {
+			continue // ≈ 7 in-circuit BW6-761 pairings: beyond the thorough budget
+		}
+		as := make([]*big.Int, n)
+		bs := make([]*big.Int, n)
+		acc := new(big.Int)
+		for i := 0; i < n-1; i++ {
+			as[i], bs[i] = rk(), rk()
+			acc.Add(acc, mul(as[i], bs[i]))
+		}
+		bs[n-1] = one
+		as[n-1] = neg(acc)
+		cp := func(x []*big.Int) []*big.Int { return append([]*big.Int{}, x...) }
+		mk("check", fmt.Sprintf("n=%d,product=1", n), n, cp(as), cp(bs), -1, -1, "", -1, true)
+		wrong := cp(as)
+		wrong[n-1] = neg(new(big.Int).Add(acc, one))
+		mk("check", fmt.Sprintf("n=%d,product!=1", n), n, wrong, cp(bs), -1, -1, "", -1, true)
+		ra, rb := make([]*big.Int, n), make([]*big.Int, n)
+		for i := range ra {
+			ra[i], rb[i] = rk(), rk()
+		}
+		mk("pair", fmt.Sprintf("n=%d,expected=native", n), n, ra, rb, -1, -1, "", -1, true)
+		mk("mlfe", fmt.Sprintf("n=%d,MillerLoop+FinalExponentiation=native-Pair", n), n, ra, rb, -1, -1, "", -1, true)
+		if n == 4 {
+			mk("pair", "n=4,expected=wrong", n, ra, rb, -1, -1, "wrong-expected", -1, true)
+		}
+	}
+	mk("mlfe", "n=2,MillerLoop+FinalExponentiation=native-Pair", 2, []*big.Int{a, rk()}, []*big.Int{b, rk()}, -1, -1, "", -1, true)
 	// identity inputs: the packages document no support for them
 	mk("check", "n=1,P0=identity(product=1)", 1, []*big.Int{a}, []*big.Int{b}, 0, -1, "", -1, false)
 	mk("check", "n=2,P0=identity(product!=1)", 2, []*big.Int{a, a}, []*big.Int{b, one}, 0, -1, "", -1, false)
@@ -107,7 +144,10 @@ func genPair(d pairDesc, rng *rand.Rand, quick bool) []*pairCase {
 			"bn254":    {"check:n=2,product=1": true, "check:n=2,product!=1": true, "check:n=3,product=1": true, "check:n=1,P0=identity(product=1)": true, "pair:n=1,expected=native": true, "ong2:subgroup-point": true, "ong2:off-curve(x<->y)": true, "ong1:off-curve(x<->y)": true, "ong1:subgroup-point": true},
 			"bls12381": {"check:n=2,product=1": true, "check:n=2,product!=1": true, "ong1:off-curve(x<->y)": true},
 			"bw6761":   {"ong1:off-curve(x<->y)": true, "ong1:subgroup-point": true},
-			"bls24315": {"check:n=2,product=1": true, "check:n=2,product!=1": true, "pair:n=1,expected=native": true, "check:n=1,P0=identity(product=1)": true},
+			"bls24315": {"check:n=2,product=1": true, "check:n=2,product!=1": true, "pair:n=1,expected=native": true, "check:n=1,P0=identity(product=1)": true,
+				"check:n=3,product=1": true, "check:n=4,product=1": true, "check:n=4,product!=1": true, "check:n=5,product=1": true, "check:n=5,product!=1": true,
+				"pair:n=4,expected=native": true, "pair:n=5,expected=native": true, "pair:n=4,expected=wrong": true,
+				"mlfe:n=4,MillerLoop+FinalExponentiation=native-Pair": true, "mlfe:n=5,MillerLoop+FinalExponentiation=native-Pair": true, "mlfe:n=2,MillerLoop+FinalExponentiation=native-Pair": true},
 		}
 		if k, ok := keep[d.tag]; ok {
 			var sel []*pairCase
@@ -132,7 +172,7 @@ func genPair(d pairDesc, rng *rand.Rand, quick bool) []*pairCase {
 
 func pairCost(d pairDesc, c *pairCase) int {
 	switch c.Kind {
-	case "check", "pair":
+	case "check", "pair", "mlfe":
 		n := c.N
 		if n < 1 {
 			n = 1
